@@ -462,7 +462,7 @@ class C10(Prop):
     props_file = "Props/C10.v"
     preamble = ("From Coq Require Import List ZArith Bool PrimFloat.\nImport ListNotations.\n"
                 "From PP Require Model.C08 Model.C09.\nFrom PP Require Import Model.C10 Model.C10_ext.\n")
-    n_cases = (22, 400)
+    n_cases = (22, 320)
     design_ref = "DESIGN.md §5 C10, Appendix B (NewtonSolver.solve, TimeManager)"
     extra_targets = ("Model/C10_ext.vo",)
     level_text = (
